@@ -126,8 +126,14 @@ def dupFrom (gap : Int) : Note → List Note → Bool
     else if gap ≤ n.qs - k.qe then false
     else dupFrom gap n ns
 
-/-- the order Melody extraction sorts by: start step ascending, pitch descending -/
-def MelOrd (a b : Note) : Prop := a.qs < b.qs ∨ (a.qs = b.qs ∧ b.pitch ≤ a.pitch)
+/-- the order Melody extraction sorts by: start step ascending, then pitch descending, then (unquantized) start
+time ascending — the key `(quantized_start_step, -pitch, start_time)` -/
+def MelOrd (a b : Note) : Prop :=
+  a.qs < b.qs ∨ (a.qs = b.qs ∧ (b.pitch < a.pitch ∨ (b.pitch = a.pitch ∧ a.start ≤ b.start)))
+
+/-- the order ChordProgression extraction sorts by: step ascending, then (unquantized) time ascending — the key
+`(quantized_step, time)` -/
+def ChordOrd (a b : TextAnn) : Prop := a.qstep < b.qstep ∨ (a.qstep = b.qstep ∧ a.time ≤ b.time)
 
 
 
